@@ -22,6 +22,25 @@ def gen_case(rng, k, maxn):
     return c
 
 
+def big_cases(rng, prefix):
+    """big DAGs: one scripted first step (held by the harness, so the run is live when it is asked) + 250-400 filler steps that
+    depend on it and succeed at once; the status document behind the socket is well over 64 KiB, the last one over 256 KiB.
+    Same case format as gen_case plus extra / pad (go/harness/agentrun acase.Extra / Pad)."""
+    out = []
+    for k, (extra, pad, fails) in enumerate([(rng.randint(250, 300), rng.choice([60, 100]), 0),
+                                             (rng.randint(300, 360), 0, rng.choice([0, -1])),
+                                             (rng.randint(380, 400), rng.choice([400, 500]), -1)]):
+        nd = {"deps": [], "cf": False, "cs": False, "limit": 0, "pre": 0, "prev": 0, "fails": fails, "obeys": True, "sig": "", "rep": False}
+        out.append({"id": "%s%d" % (prefix, k), "nodes": [nd], "maxActive": 0, "handlers": [rng.choice([0, 1, 2]) for _ in range(4)],
+                    "stopAfter": -1, "seed": rng.randrange(1 << 30), "dry": False, "extra": extra, "pad": pad})
+    return out
+
+
+def big_docs(cases, results):
+    """sizes of the status documents behind the first live point of the big cases (vacuity: they must exceed 64 / 256 KiB)"""
+    return [((results.get(c["id"]) or {}).get("points") or [{}])[0].get("doc", 0) for c in cases if c.get("extra")]
+
+
 def run_harness(binp, cases, workers=12):
     shards = [cases[i::workers] for i in range(workers)]
     def one(sh):
@@ -193,6 +212,8 @@ def liveness_stream(chk, prop, ncases, only=None):
         c = gen_case(rng, 400000 + k, 4); c["id"] = "lv%d" % k
         c["handlers"] = [rng.choice([1, 1, 2]) for _ in range(4)]       # handlers keep the process alive after the outcome is decided
         cases.append(c)
+    if ncases > 0:
+        cases += big_cases(rng, "lvbig")     # the guards ask the same socket whatever the size of the DAG (status document >> 64 KiB)
     if only is not None:
         cases = [only]
     results = run_harness(binp, cases)
@@ -200,14 +221,19 @@ def liveness_stream(chk, prop, ncases, only=None):
     for c in cases:
         r = results.get(c["id"])
         if not r or r.get("panic") or r.get("hang"):
+            if c.get("extra") and only is None:
+                chk.oblige("harness-run:big-dag:" + c["id"], False, json.dumps(r)[:400])
             continue
         n += 1; chk.evaluations += 1
         for sig, detail in monitor(c, r):
             if sig == "live-not-running-while-run-in-progress":
-                chk.violation(prop + ":live-run-not-reported-running-to-the-api-guards", "the run's process is alive (%s) but its status socket does not say running: start would be accepted, stop refused, an edit accepted" % detail,
-                              {"agent_case": dict(c, ops=r.get("ops"))})
+                chk.violation(prop + ":live-run-not-reported-running-to-the-api-guards", "the run's process is alive (%s%s) but its status socket does not say running: start would be accepted, stop refused, an edit accepted" % (
+                    detail, "; DAG of %d steps" % (1 + c["extra"]) if c.get("extra") else ""), {"agent_case": dict(c, ops=r.get("ops"))})
                 break
-    chk.stats = dict(getattr(chk, "stats", None) or {}, liveness_runs=n)
+    docs = big_docs(cases, results)
+    if only is None and ncases > 0:
+        chk.oblige("vacuity:%s:big-dag-live-status-documents-exceed-64KiB-and-one-256KiB" % prop, len(docs) == 3 and min(docs) > 65536 and max(docs) > 262144, "document sizes %r" % docs)
+    chk.stats = dict(getattr(chk, "stats", None) or {}, liveness_runs=n, liveness_big_dag_docs=docs)
 
 
 def real_kills(chk, nkills):
@@ -288,6 +314,7 @@ def run(chk, replay):
         cases = [cc["case"] if "case" in cc else cc]
     else:
         cases = [gen_case(rng, k, 5) for k in range(60 if chk.tier == "quick" else 600)]
+        cases += big_cases(rng, "big")       # live status of DAGs whose status document is >> 64 KiB (and one > 256 KiB)
     results = run_harness(binp, cases)
     pred, rc, derr = model_snaps(cases, results)
     if rc != 0:
@@ -321,6 +348,9 @@ def run(chk, replay):
                 if dis <= 3:
                     chk.oblige("correspondence:agent-live:%s" % c["id"], False, "first difference at point %d: model=%r impl=%r\ncase=%s ops=%s" % (
                         k, m[k] if k < len(m) else None, il[k] if k < len(il) else None, json.dumps(c), r.get("ops")))
+    if not replay:
+        docs = big_docs(cases, results); stat["big_dag_docs"] = docs
+        chk.oblige("vacuity:big-dag-live-status-documents-exceed-64KiB-and-one-256KiB", len(docs) == 3 and min(docs) > 65536 and max(docs) > 262144, "document sizes %r" % docs)
     if dis == 0:
         chk.oblige("correspondence:agent-live (status-socket answer at every quiescent point and after the run = model's agentStatus + node table)", True)
     # free-running stress of the FINAL record: nobody holds the executors, the last done-event's status write races with the
